@@ -254,10 +254,18 @@ def generate(rng, cfg):
                 props["END"] = _val(rng, aware)
             if rng.random() < 0.4:
                 props["DURATION"] = rng.choice(DURS)
-    trace = [[0, "new", {"cls": cls, "how": how, "props": props}]]
+    extra = []
+    if how == "parse" and exotic_ops and rng.random() < 0.3:
+        # a text that repeats one of the three properties (reachable only by parsing or add())
+        for _ in range(rng.randint(1, 2)):
+            name = rng.choice(["DTSTART"] if cls == "Journal" else ["DTSTART", "END", "DURATION"])
+            extra.append([name, rng.choice(DURS) if name == "DURATION" else _val(rng, aware)])
+    trace = [[0, "new", {"cls": cls, "how": how, "props": props, "extra": extra}]]
     m = Model(cls)
     for k, v in props.items():
         m.put(k, ["one", v])
+    for k, v in extra:
+        m.add(k, v)
     weights = [("set", 12), ("del", 3), ("bad_set", 2), ("roundtrip", 1)]
     if exotic_ops:
         weights += [("add", 3), ("setitem", 2)]
@@ -328,10 +336,10 @@ def abstract_sig(run):
 # ---------------------------------------------------------------------------
 # execution
 
-def _text_for(cls, props):
+def _text_for(cls, props, extra=()):
     kind = {"Event": "VEVENT", "Todo": "VTODO", "Journal": "VJOURNAL"}[cls]
     lines = [f"BEGIN:{kind}"]
-    for name, v in props.items():
+    for name, v in list(props.items()) + [tuple(x) for x in extra]:
         pname = endname(cls) if name == "END" else name
         lines.append(_prop_line(pname, v))
     lines.append(f"END:{kind}")
@@ -407,7 +415,7 @@ def execute(run, res):
             klass = getattr(C, cls)
             m = Model(cls)
             if a["how"] == "parse":
-                text = _text_for(cls, a["props"])
+                text = _text_for(cls, a["props"], a.get("extra", ()))
                 try:
                     comp = klass.from_ical(text)
                 except Exception as e:
@@ -415,6 +423,8 @@ def execute(run, res):
                     return
                 for k, v in a["props"].items():
                     m.put(k, ["one", v])
+                for k, v in a.get("extra", ()):
+                    m.add(k, v)
                 m.roundtrip()
                 m.pure = False
                 if a["props"]:
@@ -574,6 +584,8 @@ def _check(res, stepno, op, comp, m):
 
 def simplify_step(step):
     c, op, a = step
+    if op == "new" and a.get("extra"):
+        yield [c, op, dict(a, extra=a["extra"][:-1])]
     if op == "new" and a.get("props"):
         for k in list(a["props"]):
             b = dict(a)
